@@ -311,6 +311,12 @@ pub fn exec(c: &Case) -> Vec<u32> {
                             s2[(i * 7 + xarg(c, 1) as usize) % l] ^= *v;
                         }
                         let _ = pk.verify(&s2, b1);
+                        // a genuine signature cut at any length (all header words valid), alone and continued with untrusted bytes
+                        let l = (xarg(c, 2) ^ xarg(c, 1).rotate_left(17)) as usize % (s.len() + 1);
+                        let _ = pk.verify(&s[..l], b1);
+                        let mut s3 = s[..l].to_vec();
+                        s3.extend_from_slice(b0);
+                        let _ = pk.verify(&s3, b1);
                     }
                 }};
             }
